@@ -268,6 +268,190 @@ pub fn c07_case(src: &mut Src, obs: &mut Obs) -> CaseResult {
     Ok(())
 }
 
+/// a value of the same type that completes at once (empty arrays, absent maybes)
+fn empty_like(v: &RVal) -> RVal {
+    match v {
+        RVal::A(e, _) => RVal::A(e.clone(), vec![]),
+        RVal::Dict(k, x, _) => RVal::Dict(k.clone(), x.clone(), vec![]),
+        RVal::St(f) => RVal::St(f.iter().map(empty_like).collect()),
+        RVal::V(b) => RVal::V(Box::new((b.0.clone(), empty_like(&b.1)))),
+        RVal::M(c, _) => RVal::M(c.clone(), None),
+        x => x.clone(),
+    }
+}
+
+/// the chain with `count` completed siblings placed before the deep child at container level `at`
+fn build_with_siblings(chain: &[K], at: usize, count: usize, filled: bool) -> RVal {
+    let mut v = RVal::Y(7);
+    for (lvl, k) in chain.iter().enumerate().rev() {
+        let sib = |v: &RVal| -> RVal {
+            if filled {
+                v.clone()
+            } else {
+                empty_like(v)
+            }
+        };
+        v = match k {
+            K::A if lvl == at => {
+                let mut items: Vec<RVal> = (0..count).map(|_| sib(&v)).collect();
+                items.push(v.clone());
+                RVal::A(v.sig(), items)
+            }
+            K::D if lvl == at => {
+                let mut e: Vec<(RVal, RVal)> = (0..count.min(200)).map(|i| (RVal::Y(i as u8 + 2), sib(&v))).collect();
+                e.push((RVal::Y(1), v.clone()));
+                RVal::Dict(RSig::Y, v.sig(), e)
+            }
+            K::S if lvl == at => {
+                // completed containers of several kinds in front of the deep field
+                let mut f: Vec<RVal> = (0..count)
+                    .map(|i| match i % 4 {
+                        0 => RVal::A(RSig::Y, vec![RVal::Y(1), RVal::Y(2)]),
+                        1 => RVal::St(vec![RVal::A(RSig::Q, vec![])]),
+                        2 => RVal::V(Box::new((RSig::A(Box::new(RSig::Y)), RVal::A(RSig::Y, vec![RVal::Y(3)])))),
+                        _ => RVal::Dict(RSig::Y, RSig::A(Box::new(RSig::Y)), vec![(RVal::Y(0), RVal::A(RSig::Y, vec![]))]),
+                    })
+                    .collect();
+                f.push(v);
+                RVal::St(f)
+            }
+            K::A => RVal::A(v.sig(), vec![v]),
+            K::S => RVal::St(vec![v]),
+            K::V => RVal::V(Box::new((v.sig(), v))),
+            K::D => RVal::Dict(RSig::Y, v.sig(), vec![(RVal::Y(1), v)]),
+            K::M => RVal::M(v.sig(), Some(Box::new(v))),
+        };
+    }
+    v
+}
+
+/// C07 with siblings: the limits are about the depth of nesting, not about how many containers a
+/// value holds side by side. Completed sibling containers in front of a deep child must neither
+/// lower the count (over-deep values accepted) nor raise it (wide, shallow values refused).
+pub fn c07_sibling_case(src: &mut Src, obs: &mut Obs) -> CaseResult {
+    let mode = src.below(3);
+    // chain: either around the array / struct / total limits, or shallow
+    let (a, s, v) = match mode {
+        0 => (*src.pick(&[31usize, 32, 33]), src.below(3), src.below(3)),
+        1 => (src.below(3), *src.pick(&[31usize, 32, 33]), src.below(3)),
+        _ => (1 + src.below(3), src.below(3), src.below(2)),
+    };
+    let order = src.below(ORDERS);
+    let seed = src.u8() as u64;
+    let flags = src.u8();
+    let decode = flags & 1 != 0;
+    let gvf = flags & 2 != 0 && cfg!(feature = "gvariant");
+    let variant_route = flags & 4 != 0;
+    let big = flags & 8 != 0;
+    let dicts = flags & 16 != 0;
+    let filled = flags & 32 != 0;
+    let mut chain = chain_of(a, s, v, 0, dicts, order, seed);
+    if !matches!(chain[0], K::A | K::S | K::V) {
+        if let Some(p) = chain.iter().position(|k| matches!(k, K::A | K::S | K::V)) {
+            chain.swap(0, p);
+        }
+    }
+    let levels: Vec<usize> = chain.iter().enumerate().filter(|(_, k)| matches!(k, K::A | K::S | K::D)).map(|(i, _)| i).collect();
+    if levels.is_empty() {
+        return Ok(());
+    }
+    // siblings near the top when many (the value would otherwise grow beyond all bounds)
+    let many = mode == 2 || src.chance(60);
+    let count = if many { *src.pick(&[31usize, 32, 33, 40, 70]) } else { 1 + src.below(2) };
+    let at = if many { levels[0] } else { levels[src.below(levels.len())] };
+    let filled = filled && (chain.len() <= 6 || !many);
+    let arrays = chain.iter().filter(|k| matches!(k, K::A | K::D)).count();
+    let structs = chain.iter().filter(|k| matches!(k, K::S)).count();
+    let variants = chain.iter().filter(|k| matches!(k, K::V)).count() + variant_route as usize;
+    // the siblings in a struct nest at most (struct + variant/dict + array) below `at`
+    let sib_extra_ok = {
+        let above_a = chain[..=at].iter().filter(|k| matches!(k, K::A | K::D)).count();
+        let above_s = chain[..=at].iter().filter(|k| matches!(k, K::S)).count();
+        let above_t = at + 1 + variant_route as usize;
+        !matches!(chain[at], K::S) || (above_a + 2 <= 32 && above_s + 1 <= 32 && above_t + 3 <= 64)
+    };
+    let ok = arrays <= 32 && structs <= 32 && arrays + structs + variants <= 64 && sib_extra_ok;
+    if !sib_extra_ok && arrays <= 32 && structs <= 32 && arrays + structs + variants <= 64 {
+        // (the small siblings themselves would cross a limit: not the situation examined here)
+        return Ok(());
+    }
+    // (struct fields lengthen the signature: keep it a valid one)
+    let count = if matches!(chain[at], K::S) { count.min(12) } else { count };
+    let rv = build_with_siblings(&chain, at, count, filled);
+    if rv.sig().to_string().len() > 250 {
+        return Ok(());
+    }
+    let fmt = if gvf {
+        #[cfg(feature = "gvariant")]
+        {
+            Format::GVariant
+        }
+        #[cfg(not(feature = "gvariant"))]
+        {
+            Format::DBus
+        }
+    } else {
+        Format::DBus
+    };
+    let desc = || {
+        let sh: String = chain
+            .iter()
+            .map(|k| match k {
+                K::A => 'a',
+                K::S => '(',
+                K::V => 'v',
+                K::D => '{',
+                K::M => 'm',
+            })
+            .collect();
+        format!(
+            "{} {} route={} chain={sh} with {count} {} siblings before the deep child at level {at}; arrays={arrays} structs={structs} variants={variants}",
+            if decode { "decode" } else { "encode" },
+            if gvf { "gvariant" } else { "dbus" },
+            if variant_route { "variant" } else { "inner" },
+            if filled { "equal" } else { "empty" }
+        )
+    };
+    let result: Result<(), zvariant::Error> = if !decode {
+        let zv = to_value(&rv).map_err(|e| Failure::new(e.0))?;
+        let c = ctx(fmt, big, 0);
+        if variant_route {
+            zvariant::to_bytes(c, &zv).map(|_| ())
+        } else {
+            match &zv {
+                zvariant::Value::Array(x) => zvariant::to_bytes(c, x).map(|_| ()),
+                zvariant::Value::Structure(x) => zvariant::to_bytes(c, x).map(|_| ()),
+                zvariant::Value::Value(x) => zvariant::to_bytes(c, &**x).map(|_| ()),
+                zvariant::Value::Dict(x) => zvariant::to_bytes_for_signature(c, x.signature(), x).map(|_| ()),
+                _ => return Ok(()),
+            }
+        }
+    } else {
+        let (es, ev) = if variant_route { (RSig::V, RVal::V(Box::new((rv.sig(), rv.clone())))) } else { (rv.sig(), rv.clone()) };
+        if !matches!(es, RSig::V | RSig::St(_) | RSig::A(_)) {
+            return Ok(());
+        }
+        let bytes = if gvf { gv::serialize(&ev, big, 0, gv::Dev::default()).0 } else { dbus::marshal(&ev, big, 0).bytes };
+        let data = Data::new(bytes, ctx(fmt, big, 0));
+        decode_typed(&data, &es)
+    };
+    // (a variant whose own signature nests too deep may be refused as an invalid signature: see
+    // c07_case)
+    let is_sig_error = |e: &zvariant::Error| matches!(e, zvariant::Error::SignatureParse(_)) || e.to_string().contains("nvalid signature");
+    match (&result, ok) {
+        (Ok(()), true) => {}
+        (Err(e), false) if is_depth_error(e) || is_sig_error(e) => {}
+        (Ok(()), false) => return Err(Failure::new(format!("succeeds although the nesting exceeds the limits: {}", desc()))),
+        (Err(e), true) => return Err(Failure::new(format!("fails ({e}) although the nesting is within the limits (siblings do not nest): {}", desc()))),
+        (Err(e), false) => return Err(Failure::new(format!("fails with an error that is not a depth error ({e}): {}", desc()))),
+    }
+    obs.label(if many { "many-siblings" } else { "few-siblings" });
+    obs.label(if ok { "siblings-within-limits" } else { "siblings-beyond-limits" });
+    obs.nontrivial(fnv(desc().as_bytes()));
+    obs.sample(if many { "wide" } else { "sibling-before-deep" }, desc);
+    Ok(())
+}
+
 /// decode keeping zvariant's error type
 fn decode_typed(data: &Data<'_, '_>, s: &RSig) -> Result<(), zvariant::Error> {
     let sig = to_sig(s);
